@@ -52,6 +52,7 @@ def _chain(args):
             prog["scan"] = lang.scan("all")      # filters that keep something, so that chains have data to pass on
         if rng.random() < 0.4:
             prog["comps"] = [lang.hdr(rng.randint(0, fs.ncols - 1))]
+            prog["initVars"] = lang.init_vars(prog)
         members.append({"prog": prog, "cfg": {"AND": True, "noMatches": False, "keepUnmatched": False, "collecting": True, "noRun": False, "nexts": 0}})
     texts = []
     for i, mc in enumerate(members):
